@@ -275,6 +275,10 @@ class BaseObserver(EventDispatcher):
         # Hold the lock so that a concurrent schedule() either sees its emitter
         # started here or finds the observer alive and starts it itself.
         with self._lock:
+            # A repeated start() must fail before it touches the emitters: starting
+            # them again fails as well and would cost the watches their emitters.
+            if self.ident is not None:
+                raise RuntimeError("threads can only be started once")
             # Once stop() was requested nobody would stop the emitters again.
             for emitter in self._emitters.copy() if self.should_keep_running() else ():
                 try:
